@@ -1,1 +1,22 @@
 pub mod c02;
+pub mod c04;
+pub mod c11;
+pub mod c20;
+pub mod tiered_hist;
+
+use crate::common::runner::Ctx;
+use serde_json::Value;
+
+pub struct Entry {
+    pub id: &'static str,
+    pub level: &'static str,
+    pub main: fn(&Ctx),
+    pub replay: fn(&Ctx, &Value) -> Option<i32>,
+}
+
+pub const REGISTRY: &[Entry] = &[
+    Entry { id: "C02", level: "exploration", main: c02::main, replay: c02::replay },
+    Entry { id: "C04", level: "exploration", main: c04::main, replay: c04::replay },
+    Entry { id: "C20", level: "exploration", main: c20::main, replay: c20::replay },
+    Entry { id: "C11", level: "exploration", main: c11::main, replay: c11::replay },
+];
